@@ -13,7 +13,7 @@ import os
 os.makedirs('/verif/out/dev',exist_ok=True)
 g=f'/verif/out/dev/{hp}.txt'; t=f'/verif/out/dev/{hp}.tsv'
 subprocess.run([H,hp,'gen','--seed',seed,'--count',count,'--out',g]+extra,check=True)
-subprocess.run([H,hp,'run','--in',g,'--out',t],check=True)
+subprocess.run([H,hp,'run','--in',g,'--out',t]+os.environ.get('RUN_ARGS','').split(),check=True)
 cases=V.read_cases(t)
 codes=V.eval_cases(spec["pid"],spec,cases)
 lines=[l for l in open(g).read().split('\n') if l.strip()]
